@@ -33,7 +33,14 @@
              'growth is property C09 (the harness feeds segments longer than the initial buffer through '
              'full/half/one-byte readers); the segment hierarchy machine of ediReader is property C05 (here: '
              'one non-group segment declaration, min 0, max unbounded); utf8.DecodeRune as transcribed in '
-             'Base/Utf8.v; rune/segment counters and message texts are not modelled'],
+             'Base/Utf8.v; rune/segment counters and message texts are not modelled',
+             'CALL SEQUENCES exercised by the harness (oracle per reader): readers run alone '
+             '(NonValidatingReader.Read repeated after io.EOF must stay io.EOF); two or three readers alive '
+             'at once taking turns after an earlier input ran to EOF; one FileDecl value reused with changed '
+             'delimiters across cases (mutated in place, or copied and changed); sources that deliver in '
+             'full / half / one-byte reads or hand the final bytes over together with io.EOF '
+             '(iotest.DataErrReader). The model is per reader (pure function of configuration and input): '
+             'state shared between readers is outside the theorems and covered by these runs only'],
  'assumptions': ['cfg_ok (edi_roundtrip, edi_elem_nodes, edi_full_roundtrip, unescape_escape): the '
                  'delimiters in use and the release character are non-empty byte strings whose first rune '
                  'utf8.DecodeRune decodes and is not U+FFFD (any valid UTF-8 string not starting with U+FFFD '
